@@ -848,6 +848,29 @@ func (fr *FnRun) havocLoc(st *State, m *Expr, env *Env) {
 			fr.havocReachable(st, fr.eval(m.Args[0], env), map[*Obj]bool{})
 			return
 		}
+		if m.X.Kind == "ident" && m.X.Name == "pointees" && len(m.Args) == 1 {
+			// pointees(s): what the elements of the reference-typed slice s refer to (the slots of s
+			// themselves stay): the objects of the elements read so far are havocked; elements read
+			// later are fresh anyway
+			v := ex.force(env.st, fr.eval(m.Args[0], env))
+			if sv, ok := v.(*SliceV); ok && sv.Arr != nil {
+				if av, ok := st.heap[sv.Arr].(*ArrayV); ok {
+					if ra, ok := av.Data.(*RefArr); ok {
+						seen := map[*Obj]bool{}
+						var ks []string
+						for kk := range ra.Known {
+							ks = append(ks, kk)
+						}
+						sort.Strings(ks)
+						for _, kk := range ks {
+							fr.havocReachable(st, ra.Known[kk], seen)
+						}
+					}
+				}
+				return
+			}
+			panic(abortf("modifies pointees(%s): not a slice", m.Args[0]))
+		}
 		if m.X.Kind == "ident" && m.X.Name == "contents" && len(m.Args) == 1 {
 			v := ex.force(env.st, fr.eval(m.Args[0], env))
 			if mv, isMap := v.(*MapV); isMap {
@@ -1065,16 +1088,29 @@ func (fr *FnRun) loopEnter(st *State, li *loopInfo, head, prev *ssa.BasicBlock) 
 
 // rangeLenOf: for the index phi of a lowered range loop, the length value it is compared with.
 func rangeLenOf(ph *ssa.Phi) ssa.Value {
-	if ph.Comment != "rangeindex" || len(ph.Edges) != 2 {
+	if ph.Comment != "rangeindex" || len(ph.Edges) < 2 {
 		return nil
 	}
+	// edges: the constant -1 from the entry, and the same i+1 from every back edge (`continue`)
 	var inc *ssa.BinOp
 	for _, e := range ph.Edges {
-		if b, ok := e.(*ssa.BinOp); ok && b.Op == token.ADD && b.X == ssa.Value(ph) {
-			if c, ok := b.Y.(*ssa.Const); ok && c.Int64() == 1 {
-				inc = b
+		if c, ok := e.(*ssa.Const); ok {
+			if c.Int64() != -1 {
+				return nil
 			}
+			continue
 		}
+		b, ok := e.(*ssa.BinOp)
+		if !ok || b.Op != token.ADD || b.X != ssa.Value(ph) {
+			return nil
+		}
+		if c, ok := b.Y.(*ssa.Const); !ok || c.Int64() != 1 {
+			return nil
+		}
+		if inc != nil && inc != b {
+			return nil
+		}
+		inc = b
 	}
 	if inc == nil || inc.Referrers() == nil {
 		return nil
